@@ -161,7 +161,8 @@ def run_stage(ctx, st, exe, extra_args=None, nproc_override=None):
                              preexec_fn=os.setsid)
         running.append((i, p, out, logf, time.time(), cmd))
 
-    while pending or running:
+    try:
+      while pending or running:
         while pending and len(running) < maxpar:
             launch(pending.pop(0))
         time.sleep(0.02)
@@ -198,6 +199,12 @@ def run_stage(ctx, st, exe, extra_args=None, nproc_override=None):
             if rc not in (0, 3):
                 problems.append('stage %s proc %d: exit code %s' % (st.name, i, rc))
             results.append(res)
+    finally:
+        for ent in running:
+            try:
+                os.killpg(ent[1].pid, signal.SIGKILL)
+            except Exception:
+                pass
     return results, problems
 
 
@@ -321,6 +328,33 @@ def do_check(prop, tier, seed, repo, replay=None):
             if r.get('distinct2'):
                 stats['distinct_secondary_signatures(per-process max)'] = max(
                     stats.get('distinct_secondary_signatures(per-process max)', 0), r['distinct2'])
+    # ---- hang witnesses: re-run exactly that case once with 4x the per-case budget (DESIGN 2.7)
+    confirmed = []
+    hang_verdict = None   # decided on the first hang witness only; the others share its fate
+    for v in violations:
+        if not v['key'].startswith('hang:') or replay_rec:
+            confirmed.append(v)
+            continue
+        if hang_verdict is not None:
+            if hang_verdict and sum(1 for c in confirmed if c['key'].startswith('hang:')) < 3:
+                confirmed.append(v)
+            continue
+        st = [s for s in stages if s.name == v['stage']][0]
+        exe = os.path.join(ctx.build, st.name, 'harness')
+        old_env = dict(st.env)
+        st.env = dict(st.env, VH_CASE_TIMEOUT='120')
+        old_to = st.timeout
+        st.timeout = {'quick': 200, 'thorough': 200}
+        res2, probs2 = run_stage(ctx, st, exe, v.get('replay', '').split(), 1) if v.get('replay') else ([], ['no replay args'])
+        st.env, st.timeout = old_env, old_to
+        again = any(x['key'] == v['key'] for r in res2 for x in r.get('violations', []))
+        hang_verdict = again
+        if again:
+            v['detail'] += ' [re-run of this single case with 4x budget hung again]'
+            confirmed.append(v)
+        else:
+            problems.append('case %s exceeded its time budget once but not on re-run (inconclusive)' % v['key'])
+    violations = confirmed
     distinct, capped = merge_distinct(flat)
     distinct += stats.pop('__distinct_exact', 0)
 
@@ -422,8 +456,15 @@ def do_check(prop, tier, seed, repo, replay=None):
     return verdict
 
 
+def _term(signum, frame):
+    raise KeyboardInterrupt()
+
+
 def main(argv, props):
     import argparse
+    signal.signal(signal.SIGTERM, _term)
+    signal.signal(signal.SIGHUP, _term)
+    signal.signal(signal.SIGPIPE, _term)
     ap = argparse.ArgumentParser()
     ap.add_argument('id')
     ap.add_argument('--tier', default=os.environ.get('VERIF_TIER', 'quick'))
